@@ -6,8 +6,10 @@
     child exits and checkpoints;
   * `St.get`, `SidU` — look-up by `sid` and uniqueness of `sid`s;
   * `reify_spec` — `periodics_reify` re-arms exactly the due watchers;
-  * `cbFold_spec` / `tick_spec` — the task table, the children and the spawns after one
-    `tick`, as functions of the table before it (`tickTask`, `tickKids`, `tickSpawns`).
+  * `cbStep_spec` / `cbFold_spec` — the pending periodic callbacks (`runPending`);
+  * `exit_spec` — `chld_cb` (`childExitPending`);
+  * `iter` / `iter_spec` — one loop iteration, optionally with a child reaped in it (`tick`, `tickExit`):
+    the task table and the spawns afterwards as functions of the table before it (`iterTask`, `iterSpawns`).
 -/
 import Echse.Model.Daemon
 namespace Echse.Daemon
@@ -525,16 +527,6 @@ theorem cbStep_spec (s : St) (sps : List Spawn) (sid : Nat) (hu : SidU s.tasks) 
     have hg' : s.tasks.find? (·.sid == sid) = some t := hg
     rw [onGet_some _ hg, onGet_some _ hg]
     obtain ⟨htm, hts⟩ := get_some_mem hg
-    have key : ∀ (f : DTask → Option DTask) (r : Option DTask), f t = r →
-        (∀ x, x.sid ≠ sid → f x = some x) →
-        s.tasks.filterMap f = s.tasks.filterMap (fun x => if x.sid == sid then r else some x) := by
-      intro f r h1 h2
-      apply filterMap_congr'
-      intro x hx
-      by_cases h : x.sid = sid
-      · have : x = t := hu.inj hx htm (h.trans hts.symm)
-        subst this; simp [h, h1]
-      · simp [h, h2 x h]
     have keyc : ∀ (f : DTask → Option DTask), (∀ x ∈ s.tasks, x.sid = sid → f x = cbTask s.spawnFail x) →
         (∀ x, x.sid ≠ sid → f x = some x) →
         s.tasks.filterMap f = s.tasks.filterMap (fun x => if x.sid == sid then cbTask s.spawnFail x else some x) := by
